@@ -429,7 +429,13 @@ def misspelt(spec, acc):
         cfg = {"verb": "should_not" if anything else verb, "dir": d, "exc": exc, "subs": [sf], "objs": [] if anything else [of], "anything": anything}
         if rnd.random() < 0.2 and not anything and fk != "regex":
             # a batch in which only one member is misspelt
-            cfg["objs" if pos == "object" else "subs"] = [("named" if fk == "regex" else fk, good), (fk, bad)]
+            # ... often next to the very module it is a misspelling / a too-deep descendant of
+            g2 = real if (real in present and rnd.random() < 0.6) else good
+            members = [("named" if fk == "regex" else fk, g2), (fk, bad)]
+            if rnd.random() < 0.5:
+                members.reverse()
+            cfg["objs" if pos == "object" else "subs"] = members
+            acc.count("batches_with_one_misspelt_member")
         from ..drive import mk_rule
 
         HUB.case = {"kind": "misspelt", "mods": mods, "imps": imps, "limit": limit, "cfg": cfg}
@@ -570,7 +576,7 @@ def floors(acc, tier):
         for c in need:
             if acc.hists.get(hist, {}).get(c, 0) == 0:
                 why.append(f"{hist}: class {c} never observed")
-    for c, n in (("c13_rule_evaluations", 5000), ("c13_layer_evaluations", 500), ("c13_diagram_evaluations", 50), ("c13_entry_point_invalid_calls", 50), ("c13_unknown_module_evaluations", 300), ("c13_unmatched_regex_evaluations", 50), ("c13_calls_that_must_raise", 100), ("several_patterns_one_unmatched", 50), ("c13_diagram_unknown_component_evaluations", 50), ("diagram_rules_reconfigured_after_application", 50)):
+    for c, n in (("c13_rule_evaluations", 5000), ("c13_layer_evaluations", 500), ("c13_diagram_evaluations", 50), ("c13_entry_point_invalid_calls", 50), ("c13_unknown_module_evaluations", 300), ("c13_unmatched_regex_evaluations", 50), ("c13_calls_that_must_raise", 100), ("several_patterns_one_unmatched", 50), ("c13_diagram_unknown_component_evaluations", 50), ("diagram_rules_reconfigured_after_application", 50), ("batches_with_one_misspelt_member", 50)):
         if acc.counters[c] < n:
             why.append(f"{c}: only {acc.counters[c]}")
     acc.flags["exhaustive"] = all(acc.flags.get(f) for f in ("exhaustive_rule_sequences", "exhaustive_layer_sequences", "exhaustive_mutations", "exhaustive_entry_options"))
